@@ -266,22 +266,31 @@ _CELL = {'f': st.sampled_from([0.0, 1.5, -2.25, 1e-7, 123456789.0, 1e300, 0.1, m
 def _chain_case(draw):
     ncols = draw(st.integers(2, 4))
     coltypes = [draw(st.sampled_from('ffisb')) for _ in range(ncols)]
+    # "by-labels" family: all tables of the case are built the way the statistics-by-labels
+    # tables are (columns = plain lists, highlights = nested lists of shape (rows, 1)); they
+    # are joined and copied, never sliced (documented: slicing needs numpy columns)
+    hl2d = draw(st.integers(0, 5)) == 0
     tables = []
-    for _ in range(draw(st.integers(1, 3))):
-        nrows = draw(st.sampled_from([None, 1, 2, 3, 4, 5, 6]))    # None: scalar columns
+    for _ in range(draw(st.integers(2, 3) if hl2d else st.integers(1, 3))):
+        nrows = draw(st.sampled_from([1, 2, 2, 3, 3, 4] if hl2d else [None, 1, 2, 3, 4, 5, 6]))
         num = 1 if nrows is None else nrows
         cols = [[draw(_CELL[typ]) for _ in range(num)] for typ in coltypes]
-        hlmode = draw(st.sampled_from(['default', 'none', 'some', 'some', 'some', 'some']))
+        hlmode = 'some' if hl2d else \
+            draw(st.sampled_from(['default', 'none', 'some', 'some', 'some', 'some']))
         if hlmode == 'default':
             hls = None
         elif hlmode == 'none':
             hls = [[False] * num for _ in coltypes]
         else:
             hls = [[draw(st.booleans()) for _ in range(num)] for _ in coltypes]
-        tables.append({'n': nrows, 'cols': cols, 'hl': hls})
+        spec = {'n': nrows, 'cols': cols, 'hl': hls}
+        if hl2d:
+            spec['hl2d'] = True
+        tables.append(spec)
     ops = []
     for _ in range(draw(st.integers(1, 6))):
-        what = draw(st.sampled_from(['slice', 'slice', 'slice', 'index', 'copy', 'join', 'join']))
+        what = draw(st.sampled_from(['copy', 'join', 'join', 'join'] if hl2d else
+                                    ['slice', 'slice', 'slice', 'index', 'copy', 'join', 'join']))
         tab = draw(st.integers(0, 7))
         if what == 'slice':
             bound = st.one_of(st.none(), st.integers(-7, 7))
@@ -784,9 +793,45 @@ def _run_rendering(case, out):
         for table in detail:
             _check_detail(case, inner_res, table, out, dkind)
 
+    # ---- (b') detailed metadata tables: one row per key, one column per sample; every cell
+    # shows the value of ITS sample for ITS key and is highlighted iff it differs from the
+    # value of the reference sample (the first one in alphabetical order, as documented)
+    if kind == 'metadata' and not failed_eval and tables and rep in ('table', 'fulltable', 'full'):
+        _check_metadata_table(case, tables[0], out)
+
     if mixed and not truth and tables:
         out.nontrivial = True
         out.labels.append('nontrivial')
+
+
+def _check_metadata_table(case, table, out):
+    dmd = {samp['name']: dict(samp['md']) for samp in case['samples']}
+    refname = sorted(dmd)[0]
+    heads = table['headers']
+    if not heads or heads[0] != 'key' or sorted(heads[1:]) != sorted(dmd):
+        return                                  # not the detailed table (summary text etc.)
+    out.labels.append('metadata-detail-table')
+    if list(dmd) != sorted(dmd):
+        out.labels.append('metadata-samples-unsorted')
+    for row in table['rows']:
+        key = row[0][0]
+        for name, (text, hlt) in zip(heads[1:], row[1:]):
+            want = str(dmd[name][key]) if key in dmd[name] else 'MISSING'
+            ref = dmd[refname].get(key, 'MISSING')
+            differs = (dmd[name].get(key, 'MISSING') != ref
+                       if not (key not in dmd[name] and key not in dmd[refname]) else False)
+            if text != want:
+                out.failures.append(Failure(
+                    'detail_cells', 'C12/detail_cells/kind=metadata/value',
+                    f'key {key!r}, sample {name!r}: cell shows {text!r}, the sample holds {want!r} '
+                    f'(samples {list(dmd)}, reference {refname!r})'))
+                return
+            if bool(hlt) != bool(differs):
+                out.failures.append(Failure(
+                    'detail_rows', 'C12/detail_rows/kind=metadata/highlight',
+                    f'key {key!r}, sample {name!r} ({text!r}, reference value {ref!r}): '
+                    f'highlighted={hlt}, differs from the reference={differs}'))
+                return
 
 
 # --------------------------------------------------------------------------
@@ -812,6 +857,9 @@ def _chain_initial(case, spec):
     else:
         cols = [np.array(col, dtype=_DTYPES[typ]) for typ, col in zip(types, spec['cols'])]
         hls = None if spec['hl'] is None else [np.array(h, dtype=bool) for h in spec['hl']]
+        if spec.get('hl2d'):
+            cols = [col.tolist() for col in cols]
+            hls = [[[bool(h)] for h in hlc] for hlc in spec['hl']]
     real = TableTemplate(*cols, headers=list(headers), highlights=hls)
     mcols = [[_SCALARS[typ](v) for v in col] for typ, col in zip(types, spec['cols'])]
     mhls = [[False] * len(col) for col in mcols] if spec['hl'] is None \
